@@ -2,7 +2,7 @@
 """tools/c29_measure.py [N] [--probe]  -- measure which (instruction kind, operator, type, constant-operand?) classes
 ppci's C front end emits per target and write them to vf/c29_classes.json (input of C29's generator restriction).
 
-Corpus: N (default 600) vf/gencc units (Hypothesis seeds 1..16, rewritten for ILP32 targets by cgstage.adapt_c; generated
+Corpus: N (default 320) vf/gencc units (Hypothesis seeds 1..16, rewritten for ILP32 targets by cgstage.adapt_c; generated
 without floats for targets without float registers), every .c file of the repo that ppci compiles stand-alone, and an
 enumeration of one-function units (every cast pair, every operator x type x {var,const} operand form, compound
 assignment, comparison, memory access, pointer arithmetic, calls); each compiled by c_to_ir for each of the five targets and
@@ -29,7 +29,7 @@ logging.disable(logging.WARNING)
 REPO = os.environ.get("VERIF_REPO", "/repo")
 PROBE = "--probe" in sys.argv
 ARGS = [a for a in sys.argv[1:] if not a.startswith("--")]
-N = int(ARGS[0]) if ARGS else 600
+N = int(ARGS[0]) if ARGS else 320
 
 
 def gen_programs(arg):
